@@ -12,7 +12,7 @@ if ! (cd "$scratch" && patch -p1 -s --no-backup-if-mismatch < "$patch"); then
 fi
 /verif/bin/govc verify -repo "$scratch" -property "$prop" -replays "${REPLAYS:-/tmp/vf-replays}" -known "${KNOWN:-/verif/known_findings.jsonl}" "$@"
 rc=$?
-if [ "$prop" = C03 ] && [ $rc -eq 0 ]; then
-  /verif/tools/bounded_c03.sh "$scratch" ""; rc=$?
+if { [ "$prop" = C03 ] || [ "$prop" = C02 ]; } && [ $rc -eq 0 ]; then
+  /verif/tools/bounded_c03.sh "$scratch" "" "$prop"; rc=$?
 fi
 exit $rc
